@@ -100,13 +100,13 @@ Definition step (s : st) (e : entry) : res st :=
     if level >? prev s then
       Ok ((level - prev s - 1) :: skipped s)                                (* :367 *)
     else
-      let* '(temp, sk) := pop_loop (S (length (skipped s))) level (prev s) (skipped s) in  (* :369-374 *)
+      let* (temp, sk) := pop_loop (S (length (skipped s))) level (prev s) (skipped s) in  (* :369-374 *)
       if temp >? prev s then Ok ((temp - prev s - 1) :: sk) else Ok sk       (* :375-378 *)
   in
   let depth := level - zsum sk in                                            (* :380-385 *)
   if negb (depth =? zlen sk) || (depth <? 1) then Panic 387                  (* :386-388 *)
   else
-    let* '(sp, rs) := insert_at depth e (spine s) (roots s) in
+    let* (sp, rs) := insert_at depth e (spine s) (roots s) in
     Ok (mkst sk level sp rs).
 
 Fixpoint run (s : st) (es : list entry) : res st :=
